@@ -51,7 +51,11 @@ ToInt(n) == IF n.fd # 0 THEN [ok |-> FALSE]
 
 \* ---- parsing [sign] ip [. fp] at precision fd --------------------------------
 \* a decimal64 mantissa is a signed 64-bit integer; an integer has a 64-bit magnitude
-ParseDec(s, ip, fp, fd) ==
+\* what does not fit the precision is a NUMBER: fraction digits beyond fd that are all zero denote nothing ("1.50" at
+\* one fraction digit is 1.5)
+FitFrac(fp, fd) == IF Len(fp) > fd /\ \A k \in (fd + 1)..Len(fp) : fp[k] = 0 THEN SubSeq(fp, 1, fd) ELSE fp
+ParseDec(s, ip, fp0, fd) ==
+  LET fp == FitFrac(fp0, fd) IN
   IF Len(fp) > fd THEN [ok |-> FALSE]
   ELSE LET m == Canon(ip \o fp \o Zeros(fd - Len(fp)))
            neg == s = "-"
@@ -110,8 +114,10 @@ PrintParse == op = "unary" =>
 \* narrowing is exact
 IntExact == op = "unary" /\ res.int.ok => ValEq([neg |-> res.int.neg, mag |-> res.int.mag, fd |-> 0], a)
 \* a parsed literal denotes ip.fp exactly
+\* (zero digits beyond the precision dropped first: they do not change the number, and the order aligns at 18 digits)
 ParseExact == op = "parse" /\ res.ok =>
+   LET f == FitFrac(lit.fp, res.fd) IN
    ValEq([neg |-> res.neg, mag |-> res.mag, fd |-> res.fd],
-         [neg |-> lit.sign = "-", mag |-> Canon(lit.ip \o lit.fp), fd |-> Len(lit.fp)])
+         [neg |-> lit.sign = "-", mag |-> Canon(lit.ip \o f), fd |-> Len(f)])
 Export == op = "init" \/ PrintT(<<"CASE", ToJson([op |-> op, a |-> a, b |-> b, lit |-> lit, res |-> res])>>)
 =============================================================================
